@@ -13,6 +13,7 @@
   Not modelled: the fallback reply context `_ctx` (always NULL here), fragmented messages, allocation failure.
 -/
 import MptModel.Spec.Dispatch
+import MptModel.Impl.Message
 namespace Mpt.Dispatch
 
 inductive Hnd where
@@ -145,68 +146,6 @@ def invoke (h : Hnd) (arg : Nat) (evid : Id) (res : HRes) : Option (List LogE ×
   | .user => some ([.call arg evid], if res.zero then 0 else evid, res.val)
   | .logReply => none
 
-/- ---------- dispatch_emit.c ---------- -/
-/-- event as passed by the caller: `id` and the message bytes (contiguous) if any -/
-structure Ev where
-  id  : Id
-  msg : Option (List Byte)
-  deriving Repr, Inhabited
-
-/-- `mpt_dispatch_emit` from "modify default command" on: the handler answered `state >= 0` and left `evid'` in the event -/
-def emitFlags (d : Disp) (state : Int) (evid' : Id) (log : List LogE) : Disp × Out :=
-  let f := state.toNat
-  -- modify default command
-  let d1 := if hasDefault f then { d with dflt := evid' } else d
-  let f1 := if hasDefault f then clrDefault f else f
-  -- propagate default call availability
-  let f2 := if d1.dflt != 0 then setDefault f1 else f1
-  (d1, ⟨.val (Int.ofNat f2), log⟩)
-
-/-- `unknownEvent(arg, ev)` of dispatch_finit.c with an event: the returned flags and the event id afterwards -/
-def unknownEvent (evid : Id) (msg : Option (List Byte)) : Int × Id :=
-  if evid != 0 then (3, 0)                       -- bad event id: `ev->id = 0`, Default | Fail
-  else match msg with
-    | none => (3, evid)                          -- bad default event: Default | Fail
-    | some [] => (0, evid)                       -- empty message
-    | some (_ :: _) => (2, evid)                 -- bad message type: Fail
-
-/-- the tail of `mpt_dispatch_emit` once the command element (or none) is resolved -/
-def emitResolved (d : Disp) (cmd : Option (Nat × Slot)) (evid : Id) (msg : Option (List Byte)) (res : HRes) : Disp × Out :=
-  let tgt : Option (Hnd × Nat) :=
-    match cmd with
-    | some (_, s) => s.cmd.map fun h => (h, s.arg)
-    | none => d.err.map fun r => (Hnd.user, r)
-  match tgt with
-  | none =>
-    if d.bi then
-      -- default handler for unknown ids
-      let a := unknownEvent evid msg
-      emitFlags d a.1 a.2 []
-    else (d, ⟨.val Err.BadArgument.code, []⟩)          -- "unknown command"
-  | some (h, arg) =>
-    match invoke h arg evid res with
-    | none => (d, ⟨.fault, []⟩)
-    | some (log, evid', state) =>
-      if state < 0 then (d, ⟨.val state, log⟩)              -- bad execution of command
-      else emitFlags d state evid' log
-
-/-- `mpt_dispatch_emit(disp, ev)` -/
-def dispatchEmit (d : Disp) (ev : Option Ev) (res : HRes) : Disp × Out :=
-  match ev with
-  | none =>
-    -- execute default command
-    if d.dflt = 0 then (d, ⟨.val 0, []⟩)
-    else match commandGet d.tab d.dflt with
-      | none => ({ d with dflt := 0 }, ⟨.val Err.BadValue.code, []⟩)   -- bad default command
-      | some c => emitResolved d (some c) d.dflt none res
-  | some e =>
-    match e.msg with
-    | none => emitResolved d (commandGet d.tab e.id) e.id none res
-    | some bytes =>
-      match bytes with
-      | [] => (d, ⟨.val (-2), []⟩)
-      | b :: _ => emitResolved d (commandGet d.tab b.toUInt64) b.toUInt64 (some bytes) res
-
 /- ---------- hash_djb2.c ---------- -/
 /-- `mpt_hash_djb2(data, len)` with `len >= 0`: the `while (len--)` loop -/
 def djb2Loop (hash : UInt64) : List Byte → UInt64
@@ -279,32 +218,146 @@ def hashId (msg : List Byte) : HashId :=
         .id (mptHash (base.take len))
   | _ => .fail                                 -- missing message header / type
 
-/-- `mpt_dispatch_hash(disp, ev)` with a message -/
-def dispatchHash (d : Disp) (msg : List Byte) (res : HRes) : Out :=
-  match hashId msg with
-  | .fail => ⟨.val failDefault, []⟩
+/-- `unknownEvent(arg, ev)` of dispatch_finit.c with an event: the returned flags and the event id afterwards -/
+def unknownEvent (evid : Id) (msg : Option (List Byte)) : Int × Id :=
+  if evid != 0 then (3, 0)                       -- bad event id: `ev->id = 0`, Default | Fail
+  else match msg with
+    | none => (3, evid)                          -- bad default event: Default | Fail
+    | some [] => (0, evid)                       -- empty message
+    | some (_ :: _) => (2, evid)                 -- bad message type: Fail
+
+/-- `mpt_dispatch_hash` from "execute matching command" on (`hid` = the id computed from the message, `msg` = the
+    flattened message): the outcome and the event id left in the event.  Every `MPT_event_fail` exit answers
+    `Fail|Default` and clears the event id. -/
+def hashExec (d : Disp) (hid : HashId) (msg : List Byte) (res : HRes) : Out × Id :=
+  match hid with
+  | .fail => (⟨.val failDefault, []⟩, 0)
   | .id id =>
     match commandGet d.tab id with
     | some (_, s) =>
       -- execute matching command
       match s.cmd with
-      | none => ⟨.fault, []⟩
+      | none => (⟨.fault, []⟩, id)
       | some h =>
         match invoke h s.arg id res with
-        | none => ⟨.fault, []⟩
-        | some (log, _, state) =>
-          if state < 0 then ⟨.val failDefault, log⟩        -- failed to execute command
-          else ⟨.val state, log⟩
+        | none => (⟨.fault, []⟩, id)
+        | some (log, evid', state) =>
+          if state < 0 then (⟨.val failDefault, log⟩, 0)        -- failed to execute command
+          else (⟨.val state, log⟩, evid')
     | none =>
       -- execute fallback command
       match d.err with
       | some r =>
         match invoke .user r id res with
-        | none => ⟨.fault, []⟩
-        | some (log, _, state) => ⟨.val state, log⟩
+        | none => (⟨.fault, []⟩, id)
+        | some (log, evid', state) => (⟨.val state, log⟩, evid')
       | none =>
-        if d.bi then ⟨.val (unknownEvent id (some msg)).1, []⟩
-        else ⟨.val failDefault, []⟩                         -- unable to find command
+        if d.bi then (⟨.val (unknownEvent id (some msg)).1, []⟩, (unknownEvent id (some msg)).2)
+        else (⟨.val failDefault, []⟩, 0)                        -- unable to find command
+
+/-- `mpt_dispatch_hash(disp, ev)` with a contiguous message -/
+def dispatchHash (d : Disp) (msg : List Byte) (res : HRes) : Out := (hashExec d (hashId msg) msg res).1
+
+/-- the id `mpt_dispatch_hash` computes for a message given in fragments (`base` = first fragment, `cont` = the
+    others): header through `mpt_message_read`, first argument through `mpt_message_argv` (both modelled in
+    Impl/Message.lean), then the contiguous case (`msg.used >= len`) or the copy into the 128-byte buffer -/
+def hashIdFrag (frags : List (List Byte)) : HashId :=
+  let m : Msg := match frags with
+    | [] => ⟨[], []⟩
+    | f :: fs => ⟨f, fs⟩
+  let r := m.read 2
+  if r.total < 2 then .fail                       -- missing message header / type
+  else
+    let ty := r.out[0]?.getD 0
+    let arg := r.out[1]?.getD 0
+    let sep : Byte := if ty = msgCommand then arg else 0
+    match r.msg.argv sep with
+    | (m2, .ok len) =>
+      if len = 0 then .fail
+      else if m2.base.length ≥ len then
+        -- continous data
+        let len := if sep = 0 ∧ m2.base[len - 1]? = some 0 then len - 1 else len
+        .id (mptHash (m2.base.take len))
+      else if len > 128 then .fail                -- large unaligned text command
+      else
+        -- need aligned data
+        let buf := (m2.read len).out
+        let len := if sep = 0 ∧ buf[len - 1]? = some 0 then len - 1 else len
+        .id (mptHash (buf.take len))
+    | (_, _) => .fail                             -- unable to get text command
+
+/-- `mpt_dispatch_hash(disp, ev)` with a message in fragments -/
+def dispatchHashFrag (d : Disp) (frags : List (List Byte)) (res : HRes) : Out :=
+  (hashExec d (hashIdFrag frags) frags.flatten res).1
+
+/- ---------- dispatch_emit.c ---------- -/
+/-- event as passed by the caller: `id` and the message bytes (contiguous) if any -/
+structure Ev where
+  id  : Id
+  msg : Option (List Byte)
+  deriving Repr, Inhabited
+
+/-- `mpt_dispatch_emit` from "modify default command" on: the handler answered `state >= 0` and left `evid'` in the event -/
+def emitFlags (d : Disp) (state : Int) (evid' : Id) (log : List LogE) : Disp × Out :=
+  let f := state.toNat
+  -- modify default command
+  let d1 := if hasDefault f then { d with dflt := evid' } else d
+  let f1 := if hasDefault f then clrDefault f else f
+  -- propagate default call availability
+  let f2 := if d1.dflt != 0 then setDefault f1 else f1
+  (d1, ⟨.val (Int.ofNat f2), log⟩)
+
+/-- a harness handler that dispatches the event's command text by hash instead of answering itself
+    (`return mpt_dispatch_hash(disp, ev)`): its own invocation is logged, then whatever the nested call logs; event
+    id and returned value are those of the nested call.  Without a message the nested call fails at once. -/
+def invokeNested (d : Disp) (h : Hnd) (arg : Nat) (evid : Id) (msg : Option (List Byte)) (res : HRes) :
+    Option (List LogE × Id × Int) :=
+  match h with
+  | .logReply => none
+  | .user =>
+    let inner : Out × Id := match msg with
+      | some m => hashExec d (hashId m) m res
+      | none => (⟨.val failDefault, []⟩, 0)               -- missing message data
+    match inner.1.ret with
+    | .val v => some (.call arg evid :: inner.1.log, inner.2, v)
+    | _ => none
+
+/-- the tail of `mpt_dispatch_emit` once the command element (or none) is resolved -/
+def emitResolved (d : Disp) (cmd : Option (Nat × Slot)) (evid : Id) (msg : Option (List Byte)) (nest : Bool) (res : HRes) : Disp × Out :=
+  let tgt : Option (Hnd × Nat) :=
+    match cmd with
+    | some (_, s) => s.cmd.map fun h => (h, s.arg)
+    | none => d.err.map fun r => (Hnd.user, r)
+  match tgt with
+  | none =>
+    if d.bi then
+      -- default handler for unknown ids
+      let a := unknownEvent evid msg
+      emitFlags d a.1 a.2 []
+    else (d, ⟨.val Err.BadArgument.code, []⟩)          -- "unknown command"
+  | some (h, arg) =>
+    match (if nest then invokeNested d h arg evid msg res else invoke h arg evid res) with
+    | none => (d, ⟨.fault, []⟩)
+    | some (log, evid', state) =>
+      if state < 0 then (d, ⟨.val state, log⟩)              -- bad execution of command
+      else emitFlags d state evid' log
+
+/-- `mpt_dispatch_emit(disp, ev)` -/
+def dispatchEmit (d : Disp) (ev : Option Ev) (res : HRes) (nest : Bool := false) : Disp × Out :=
+  match ev with
+  | none =>
+    -- execute default command
+    if d.dflt = 0 then (d, ⟨.val 0, []⟩)
+    else match commandGet d.tab d.dflt with
+      | none => ({ d with dflt := 0 }, ⟨.val Err.BadValue.code, []⟩)   -- bad default command
+      | some c => emitResolved d (some c) d.dflt none nest res
+  | some e =>
+    match e.msg with
+    | none => emitResolved d (commandGet d.tab e.id) e.id none nest res
+    | some bytes =>
+      match bytes with
+      | [] => (d, ⟨.val (-2), []⟩)
+      | b :: _ => emitResolved d (commandGet d.tab b.toUInt64) b.toUInt64 (some bytes) nest res
 
 /- ---------- command_reserve.c ---------- -/
 /-- the `switch (max)` table, capped at INTPTR_MAX; 0 = refuse -/
@@ -461,10 +514,14 @@ def step (s : St) (op : Op) : St × Out :=
   | .emitMsg msg h =>
     let r := dispatchEmit s.d (some ⟨0, some msg⟩) h
     ({ s with d := r.1 }, r.2)
+  | .emitCmd msg h =>
+    let r := dispatchEmit s.d (some ⟨0, some msg⟩) h true
+    ({ s with d := r.1 }, r.2)
   | .emitNone h =>
     let r := dispatchEmit s.d none h
     ({ s with d := r.1 }, r.2)
   | .hash msg h => (s, dispatchHash s.d msg h)
+  | .hashFrag frags h => (s, dispatchHashFrag s.d frags h)
   | .reserve w =>
     let r := commandReserve s.d.tab w
     match r.2 with
